@@ -317,35 +317,30 @@ theorem handlePacket_commits {s s' : RState} {id : Nat} {cid : String} {pkt : Pa
             exact ⟨[.clientAcked id pkid, .committed id (.pubrel pkid)] ++ evs, by rw [g]; simp [RState.g, setConn],
               by rw [committedEvents_append, c]; rfl⟩
   | pubrel pkid hpr =>
-    cases hpr with
-    | true =>
-      simp only [handlePacket, Except.ok.injEq, Prod.mk.injEq] at h; obtain ⟨rfl, _⟩ := h
-      exact ⟨[], Appended.of_frame (AckFrame.refl _) id, Commits.refl _⟩
-    | false =>
-      have ha := handlePacket_pubrel_appended h
-      refine ⟨_, ha, ?_⟩
-      simp only [handlePacket] at h
+    have ha := handlePacket_pubrel_appended h
+    refine ⟨_, ha, ?_⟩
+    simp only [handlePacket] at h
+    split at h
+    · simp at h
+    · rename_i c hc
       split at h
-      · simp at h
-      · rename_i c hc
+      · simp only [Except.ok.injEq, Prod.mk.injEq] at h; obtain ⟨rfl, _⟩ := h
+        exact ⟨[.committed id (.pubcomp pkid)], rfl, rfl⟩
+      · rename_i p rest hrec
+        have c0 : Commits s ((setConn s id { c with acks := { committed := c.acks.committed ++ [Ack.pubcomp pkid], recorded := rest } }).g
+            (.committed id (.pubcomp pkid))) [(id, Ack.pubcomp pkid)] :=
+          ⟨[.committed id (.pubcomp pkid)], rfl, rfl⟩
         split at h
-        · simp only [Except.ok.injEq, Prod.mk.injEq] at h; obtain ⟨rfl, _⟩ := h
-          exact ⟨[.committed id (.pubcomp pkid)], rfl, rfl⟩
-        · rename_i p rest hrec
-          have c0 : Commits s ((setConn s id { c with acks := { committed := c.acks.committed ++ [Ack.pubcomp pkid], recorded := rest } }).g
-              (.committed id (.pubcomp pkid))) [(id, Ack.pubcomp pkid)] :=
-            ⟨[.committed id (.pubcomp pkid)], rfl, rfl⟩
+        · simp at h
+        · rename_i s2 e hap
+          simp only [Except.ok.injEq, Prod.mk.injEq] at h; obtain ⟨rfl, _⟩ := h
+          exact c0.trans_nil (appendToCommitlog_commits hap)
+        · rename_i s2 hap
           split at h
           · simp at h
-          · rename_i s2 e hap
+          · rename_i s3 h3
             simp only [Except.ok.injEq, Prod.mk.injEq] at h; obtain ⟨rfl, _⟩ := h
-            exact c0.trans_nil (appendToCommitlog_commits hap)
-          · rename_i s2 hap
-            split at h
-            · simp at h
-            · rename_i s3 h3
-              simp only [Except.ok.injEq, Prod.mk.injEq] at h; obtain ⟨rfl, _⟩ := h
-              exact (c0.trans_nil (appendToCommitlog_commits hap)).trans_nil (reschedule_commits h3)
+            exact (c0.trans_nil (appendToCommitlog_commits hap)).trans_nil (reschedule_commits h3)
   | pubcomp pkid =>
     have ha := handlePacket_pubcomp_appended h
     refine ⟨[], ha, ?_⟩
